@@ -250,6 +250,37 @@ def fromPairs (l : List (K × V)) : OMD K V := (empty : OMD K V).addAll l
 
 def copy (s : OMD K V) : OMD K V := fromPairs s.itemsM
 
+/-- `fromkeys(keys, default)`: `cls([(k, default) for k in keys])` (a repeated key gets the value again) -/
+def fromkeys (ks : List K) (d : V) : OMD K V := fromPairs (ks.map fun k => (k, d))
+
+/-! the view objects `viewkeys()` / `viewvalues()` / `viewitems()` = `collections.abc.KeysView(self)` … : they keep a
+    reference to the dictionary and every use reads its CURRENT state through the public readers -/
+
+/-- `iter(KeysView(omd))` = `iter(omd)`; `len(view)` = `len(omd)` (all three views); `k in view` = `k in omd` -/
+def viewKeysIter (s : OMD K V) : List K := s.iter
+def viewLen (s : OMD K V) : Nat := s.len
+def viewKeysContains (s : OMD K V) (k : K) : Bool := s.contains k
+
+/-- `iter(ValuesView(omd))`: `for key in self._mapping: yield self._mapping[key]` -/
+def viewValuesIter (s : OMD K V) : Except Err (List V) := mapE (fun k => s.getitem k) s.iter
+
+/-- `iter(ItemsView(omd))`: `for key in self._mapping: yield (key, self._mapping[key])` -/
+def viewItemsIter (s : OMD K V) : Except Err (List (K × V)) :=
+  mapE (fun k => match s.getitem k with | .error e => .error e | .ok v => .ok (k, v)) s.iter
+
+/-- `(k, v) in ItemsView(omd)`: `try: x = self._mapping[k]  except KeyError: False  else: x is v or x == v` -/
+def viewItemsContains [DecidableEq V] (s : OMD K V) (k : K) (v : V) : Except Err Bool :=
+  match s.getitem k with
+  | .error .keyError => .ok false
+  | .error e => .error e
+  | .ok x => .ok (decide (x = v))
+
+/-- `v in ValuesView(omd)`: `for key in self._mapping: x = self._mapping[key]; if x is v or x == v: return True` -/
+def viewValuesContains [DecidableEq V] (s : OMD K V) (v : V) : Except Err Bool :=
+  match s.viewValuesIter with
+  | .error e => .error e
+  | .ok l => .ok (decide (v ∈ l))
+
 /-- `setdefault(k, default)` (an omitted default is the value `None`, chosen by the caller) -/
 def setdefault (s : OMD K V) (k : K) (v : V) : OMD K V × Out K V :=
   let s' := if dhas k s.vals then s else s.setitem k v
@@ -385,6 +416,11 @@ inductive HOp (K V : Type) where
   | addlistAbort (k : K) (vs : List V)            -- `v = list(v)` raises before anything is touched
   | updateAbort (l : List (K × V))                -- the `seen` loop of `update` has taken over `l`
   | updateExtendAbort (l : List (K × V))          -- the `add` loop of `update_extend` has taken over `l`
+  -- the argument is a mapping whose `keys()` / `__getitem__` raises after the items `l` were delivered:
+  | updateMapAbort (l : List (K × V))             -- the loop `for k in E.keys(): self[k] = E[k]` has assigned `l`
+  -- the call raised before it touched anything (unhashable key, an argument that is not iterable, too many
+  -- arguments): the first statement that looks at the argument is the one that raises
+  | rejected
   | copyToT      -- t = s.copy() / copy.copy(s) / copy.deepcopy(s) / pickle round trip
   | copyToS      -- s = the same
   | swap
@@ -427,6 +463,8 @@ def hstep (st : HState K V) : HOp K V → HState K V × Out K V
   | .addlistAbort _ _ => (st, .abort)
   | .updateAbort l => (⟨st.s.updPairs [] l, st.t⟩, .abort)
   | .updateExtendAbort l => (⟨st.s.addAll l, st.t⟩, .abort)
+  | .updateMapAbort l => (⟨st.s.setAll l, st.t⟩, .abort)
+  | .rejected => (st, .abort)
   | .copyToT => (⟨st.s, st.s.copy⟩, .unit)
   | .copyToS => (⟨st.s.copy, st.t⟩, .unit)
   | .swap => (⟨st.t, st.s⟩, .unit)
